@@ -10,7 +10,7 @@ the behaviour of the model functions is compared with the real code by `harness/
 Quantifiers: every byte list (any length ≥ 1, in particular every 1024-byte block), every version tuple, every pack label of
 the shipped tables, every `SafeName`, every time stamp; every segmentation of a transferred range.
 -/
-import GeckoModel.Proofs.SnapshotTraffic
+import GeckoModel.Proofs.SnapshotWhole
 import GeckoModel.Generated.SnapshotSrc
 
 set_option linter.unusedSimpArgs false
@@ -71,24 +71,6 @@ theorem empty_block_unreadable : dataLine (renderBlockL []) = .raises := by deci
 
 theorem shipped_labels_ok : ∀ l ∈ SnapshotSrc.packTypeLabels, LabelOK l := by decide
 
-theorem renderVersions_eq (stamp : Text) (h : Header) : renderVersions stamp h = [
-    stamp ++ (shellTag ++ (t!"geckolib version " ++ (h.libVersion ++ ['\n']))),
-    stamp ++ (shellTag ++ (t!"SpaPackStruct.xml revision " ++ (h.revision ++ ['\n']))),
-    stamp ++ (shellTag ++ (t!"intouch version EN " ++ (natToDec h.enB ++ (t!" v" ++ (natToDec h.enMaj ++ ('.' :: (natToDec h.enMin ++ ['\n']))))))),
-    stamp ++ (shellTag ++ (t!"intouch version CO " ++ (natToDec h.coB ++ (t!" v" ++ (natToDec h.coMaj ++ ('.' :: (natToDec h.coMin ++ ['\n']))))))),
-    stamp ++ (shellTag ++ (t!"Spa pack " ++ (h.pack ++ (' ' :: (natToDec h.confId ++ (t!" v" ++ (natToDec h.confRev ++ ('.' :: (natToDec h.confRel ++ ['\n']))))))))),
-    stamp ++ (shellTag ++ (t!"Low level configuration # " ++ (natToDec h.configNumber ++ ['\n']))),
-    stamp ++ (shellTag ++ (t!"Config version " ++ (natToDec h.cfg ++ ['\n']))),
-    stamp ++ (shellTag ++ (t!"Log version " ++ (natToDec h.log ++ ['\n']))),
-    stamp ++ (shellTag ++ (t!"Pack type " ++ (natToDec h.packTypeNo ++ ['\n'])))] := by
-  simp [renderVersions, versionMessages, logLine]
-
-/-- header hypotheses: the two free-text fields are digits and dots, the label is one inside which no expression can start -/
-structure HeaderOK (h : Header) : Prop where
-  lib : h.libVersion.all verChar = true
-  rev : h.revision.all verChar = true
-  label : LabelOK h.pack
-
 /-- **version round trip**: for all version numbers, all configuration / log versions and every pack label (`LabelOK`; all
 15 labels of the shipped tables are, `shipped_labels_ok`), the nine header lines parse back to the same pack type, pack
 configuration id / revision / release, in.touch EN and CO triples, and config / log versions -/
@@ -103,34 +85,6 @@ theorem versions_roundtrip (stamp : Text) (hs : stamp.all stampChar = true) (h :
   simp [Except.map, Snap.view, Header.expected, decToNat_natToDec]
 
 /-! ## the whole snapshot record through `parse_log_file` -/
-
-theorem writeSnapshot_eq (s0 s1 s2 s3 s4 s5 s6 s7 s8 s9 s10 : Text) (name : Text) (h : Header) (bs : List Byte) :
-    writeSnapshot [s0, s1, s2, s3, s4, s5, s6, s7, s8, s9, s10] name h bs = [
-    s0 ++ (shellTag ++ nameTail name),
-    s1 ++ (shellTag ++ (t!"geckolib version " ++ (h.libVersion ++ ['\n']))),
-    s2 ++ (shellTag ++ (t!"SpaPackStruct.xml revision " ++ (h.revision ++ ['\n']))),
-    s3 ++ (shellTag ++ (t!"intouch version EN " ++ (natToDec h.enB ++ (t!" v" ++ (natToDec h.enMaj ++ ('.' :: (natToDec h.enMin ++ ['\n']))))))),
-    s4 ++ (shellTag ++ (t!"intouch version CO " ++ (natToDec h.coB ++ (t!" v" ++ (natToDec h.coMaj ++ ('.' :: (natToDec h.coMin ++ ['\n']))))))),
-    s5 ++ (shellTag ++ (t!"Spa pack " ++ (h.pack ++ (' ' :: (natToDec h.confId ++ (t!" v" ++ (natToDec h.confRev ++ ('.' :: (natToDec h.confRel ++ ['\n']))))))))),
-    s6 ++ (shellTag ++ (t!"Low level configuration # " ++ (natToDec h.configNumber ++ ['\n']))),
-    s7 ++ (shellTag ++ (t!"Config version " ++ (natToDec h.cfg ++ ['\n']))),
-    s8 ++ (shellTag ++ (t!"Log version " ++ (natToDec h.log ++ ['\n']))),
-    s9 ++ (shellTag ++ (t!"Pack type " ++ (natToDec h.packTypeNo ++ ['\n']))),
-    s10 ++ (shellTag ++ (renderBlockL bs ++ ['\n']))] := by
-  simp [writeSnapshot, versionMessages, logLine, nameTail]
-
-theorem fileLoop_cons (d : List Snap) (s : Snap) (line : Text) (upd : Snap → Snap) (rest : List Text)
-    (f : LineFacts line upd) :
-    fileLoop { done := d, snap := some s, conn := none } (line :: rest) =
-      fileLoop { done := d, snap := some (upd s), conn := none } rest := by
-  have := fileStep_line { done := d, snap := some s, conn := none } s rfl rfl line upd f
-  simp only [fileLoop, this]
-
-theorem fileLoop_name (line name : Text) (rest : List Text) (f : NameFacts line name) :
-    ∃ s', fileLoop {} (line :: rest) = fileLoop { done := [], snap := some s', conn := none } rest ∧
-      s'.name = some name ∧ s'.segs = [] := by
-  obtain ⟨s', e, n, g⟩ := fileStep_name {} rfl line name f
-  exact ⟨s', by simp [fileLoop, e], n, g⟩
 
 /-- **whole round trip**: for every `SafeName`, every header (`HeaderOK`), every non-empty block and any time stamps, the
 eleven records `do_snapshot` appends to the log are read by `parse_log_file` as exactly ONE snapshot whose name, pack type,
@@ -209,50 +163,6 @@ theorem segment_roundtrip_fails :
     litEval (fixQuotes (escBytes (quoteOf [0x27, 0x22]) [0x27, 0x22])) = .ok [0x5c, 0x78, 0x32, 0x37, 0x22] := by
   constructor <;> decide
 
-/-- one `Received ..` record of a traffic log -/
-structure Rec where
-  pre : Text
-  post : Text
-  seg : Seg
-
-def recLine (src dst : List Byte) (r : Rec) : Text := trafficLine r.pre r.post (packet src dst r.seg)
-
-/-- every segment but the last announces a successor -/
-def Chained : List Seg → Prop
-  | [] => False
-  | s :: t => (t = [] → s.next = 0) ∧ (t ≠ [] → s.next ≠ 0 ∧ Chained t)
-
-/-- per-record hypotheses: framing text that cannot be mistaken for `STATV` / `</DATAS>`, a length that fits the length
-byte, no `\'` in the rendering (D13), and the block expression `[..]` not raising on the record (it is tried on every line) -/
-structure RecOK (src dst : List Byte) (r : Rec) : Prop where
-  frame : FrameOK r.pre r.post src dst
-  len : r.seg.data.length < 256
-  quotes : QuoteSafe (packet src dst r.seg)
-  noBlockError : dataLine (recLine src dst r) ≠ .raises
-
-theorem parseLines_chain (src dst : List Byte) (recs : List Rec) (hch : Chained (recs.map (·.seg)))
-    (hok : ∀ r ∈ recs, RecOK src dst r) (s : Snap) :
-    ∃ s', parseLines s (recs.map (recLine src dst)) = .ok s' ∧
-      s'.bytes = (s.segs ++ recs.map (·.seg.data)).flatten := by
-  induction recs generalizing s with
-  | nil => exact absurd hch (by simp [Chained])
-  | cons r rs ih =>
-    have ok := hok r (by simp)
-    obtain ⟨s1, e1, g1, b1⟩ := traffic_parse s r.pre r.post src dst r.seg ok.frame ok.len ok.quotes ok.noBlockError
-    cases rs with
-    | nil =>
-      simp only [List.map_cons, List.map_nil, Chained] at hch
-      refine ⟨s1, ?_, ?_⟩
-      · simp only [List.map_cons, List.map_nil, parseLines, recLine, e1]
-      · simpa using b1 (hch.1 trivial)
-    | cons r2 rs =>
-      simp only [List.map_cons, Chained] at hch
-      obtain ⟨s2, e2, b2⟩ := ih (by simpa [Chained] using (hch.2 (by simp)).2) (fun x hx => hok x (by simp [hx])) s1
-      refine ⟨s2, ?_, ?_⟩
-      · simp only [List.map_cons, parseLines, recLine, e1] at e2 ⊢
-        exact e2
-      · rw [b2, g1]; simp
-
 /-- **reassembly of a chain**: the records of one transfer, in order, the last one announcing segment 0, give back the
 concatenation of the segment data -/
 theorem reassemble_chain_partial (src dst : List Byte) (recs : List Rec) (hch : Chained (recs.map (·.seg)))
@@ -260,32 +170,6 @@ theorem reassemble_chain_partial (src dst : List Byte) (recs : List Rec) (hch : 
     reassemble (recs.map (recLine src dst)) = .ok (recs.map (·.seg.data)).flatten := by
   obtain ⟨s', e, b⟩ := parseLines_chain src dst recs hch hok connInit
   unfold reassemble; rw [e]; simp [Except.map, b, connInit]
-
-theorem chainFrom_data (i : Nat) (parts : List (List Byte)) : (chainFrom i parts).map (·.data) = parts := by
-  induction parts generalizing i with
-  | nil => rfl
-  | cons d ds ih =>
-    cases ds with
-    | nil => rfl
-    | cons d' ds => simp only [chainFrom, List.map_cons]; rw [ih (i + 1)]
-
-theorem chainFrom_ne (i : Nat) (d : List Byte) (ds : List (List Byte)) : chainFrom i (d :: ds) ≠ [] := by
-  cases ds <;> simp [chainFrom]
-
-theorem chainFrom_chained (i : Nat) (parts : List (List Byte)) (hne : parts ≠ []) (hlen : i + parts.length ≤ 256) :
-    Chained (chainFrom i parts) := by
-  induction parts generalizing i with
-  | nil => exact absurd rfl hne
-  | cons d ds ih =>
-    cases ds with
-    | nil => simp [chainFrom, Chained]
-    | cons d' ds =>
-      simp only [chainFrom, Chained]
-      simp only [List.length_cons] at hlen
-      refine ⟨fun e => absurd e (chainFrom_ne _ _ _), fun _ => ⟨?_, ih (i + 1) (by simp) (by simp; omega)⟩⟩
-      intro e
-      have : (UInt8.ofNat (i + 1)).toNat = 0 := by rw [e]; rfl
-      simp at this; omega
 
 /-
 FULL statement: the same without the `quotes` and `noBlockError` fields of `RecOK`.  FALSE on the current tree:
